@@ -939,6 +939,7 @@ class Engine:
         if n.startswith('nondet_'):
             w = {'nondet_int': 32, 'nondet_uint': 32, 'nondet_long': 64, 'nondet_ulong': 64, 'nondet_char': 8, 'nondet_uchar': 8, 'nondet_bool': 8}[n]
             s.nondet_n += 1; v = z3.BitVec('%s!%d' % (n, s.nondet_n), w); s.nondets.append((n, z3.SignExt(64 - w, v) if w < 64 else v)); return v
+        if n == 'verif_concretize': return s.concretize(args[0], 64)      # fork per feasible value: what follows is concrete
         if n == 'verif_reach': s.reached.append(s.cstring(args[0])); return None
         if n == 'verif_obs': s.obs.append(args[0]); return None
         if n == 'verif_note': s.notes.append(s.cstring(args[0])); return None
